@@ -27,7 +27,7 @@ def sh(cmd, cwd=None, env=None, timeout=3600):
 def nextest(wt):
     env = dict(os.environ, CARGO_TARGET_DIR=os.path.join(wt, "target"), CARGO_NET_OFFLINE="true", RUST_BACKTRACE="0")
     rc, out = sh("cargo nextest run --workspace --no-fail-fast --test-threads 8 --offline 2>&1 | grep -E '^\\s+(FAIL|PASS)|Summary|error(\\[|:)' | cut -c1-200", cwd=wt, env=env)
-    fails = sorted(set(re.findall(r"FAIL \[[^\]]*\] (?:\(\S+\) )?(\S+ \S+)", out)))
+    fails = sorted(set(re.findall(r"FAIL \[[^\]]*\] (?:\(\s*\d+/\d+\) )?(?:\(\S+\) )?(\S+ \S+)", out)))
     m = re.search(r"(\d+) tests run: (\d+) passed(?: \(\d+ \w+\))?(?:, (\d+) failed)?", out)
     summ = m.group(0) if m else out[-300:]
     return fails, summ
